@@ -51,6 +51,9 @@ DoTruncCreate(a) == /\ fs' = (IF IsFile(fs, a) THEN SetContent(fs, fs[a].ino, "E
                     /\ nextino' = (IF IsFile(fs, a) THEN nextino ELSE nextino + 1)
 DoWriteAll(dst, src) == fs' = SetContent(fs, fs[dst].ino, Read(fs, src))  \* clone / complete copy of src's bytes onto dst
 DoMkdir(d)     == fs' = (IF Has(d) THEN fs ELSE Put(fs, d, [k |-> "dir"]))
+\* ioctl(dst, FICLONE, src) can succeed only if the kernel lets it: an empty source is "cloned" by doing nothing, and a file cannot be
+\* cloned onto itself (EINVAL: overlapping ranges of one inode) - which is what a group of hard links reported with --match-links asks for
+CanClone(dst, src) == Read(fs, src) = "EMPTY" \/ ~(IsFile(fs, src) /\ IsFile(fs, dst) /\ fs[src].ino = fs[dst].ino)
 
 Goto(f, l) == pc' = [pc EXCEPT ![f] = l]
 Finish(f, r) == /\ pc' = [pc EXCEPT ![f] = "done"] /\ res' = [res EXCEPT ![f] = r]
@@ -106,7 +109,7 @@ BkCreate(f, t, ok) == /\ pc[f] = "bk_create"
                       /\ IF ok THEN DoCreate(t) /\ tmp' = [tmp EXCEPT ![f] = t] /\ Goto(f, "bk_clone")
                          ELSE Same(<<fs, nextino>>) /\ tmp' = [tmp EXCEPT ![f] = t] /\ Goto(f, "bk_cleanup")
                       /\ Same(<<res, rbfail>>)
-BkClone(f, ok) == /\ pc[f] = "bk_clone"
+BkClone(f, ok) == /\ pc[f] = "bk_clone" /\ (ok => CanClone(tmp[f], f))
                   /\ IF ok THEN DoWriteAll(tmp[f], f) /\ Goto(f, "cl_open") ELSE Same(fs) /\ Goto(f, "bk_cleanup")
                   /\ Same(<<tmp, res, rbfail, nextino>>)
 BkCleanup(f, ok) == /\ pc[f] = "bk_cleanup"                             \* remove_temporary, then the error is returned
@@ -115,7 +118,12 @@ BkCleanup(f, ok) == /\ pc[f] = "bk_cleanup"                             \* remov
 ClOpen(f, ok) == /\ pc[f] = "cl_open"                                   \* open f for write (create, no truncate)
                  /\ IF ok THEN Goto(f, "cl_clone") ELSE Goto(f, "rollback")
                  /\ Same(<<fs, tmp, res, rbfail, nextino>>)
-ClClone(f, ok) == /\ pc[f] = "cl_clone"
+\* NOT what the code does - the same open with O_TRUNC ("the clone refills it anyway"): kept as a named deviation so that the model
+\* checker can show why the code must not do it (MC_DedupeOps with TruncOnOpen = TRUE: RetainedUntouched fails for a hard-linked group)
+ClOpenTrunc(f, ok) == /\ pc[f] = "cl_open"
+                      /\ IF ok THEN DoTruncCreate(f) /\ Goto(f, "cl_clone") ELSE Same(<<fs, nextino>>) /\ Goto(f, "rollback")
+                      /\ Same(<<tmp, res, rbfail>>)
+ClClone(f, ok) == /\ pc[f] = "cl_clone" /\ (ok => CanClone(f, keep[f]))
                   /\ IF ok THEN DoWriteAll(f, keep[f]) /\ Goto(f, "cl_rm_tmp") ELSE Same(fs) /\ Goto(f, "rollback")
                   /\ Same(<<tmp, res, rbfail, nextino>>)
 ClRmTmp(f, ok) == /\ pc[f] = "cl_rm_tmp"
